@@ -1,6 +1,7 @@
 import StepModel.Props.C14
 import StepModel.SkipEntry
 import StepModel.Generated.P21RWGen
+import StepModel.HeaderIdsLemmas
 /-!
 C16 — working-session files round-trip populations with per-instance state.
 
@@ -442,6 +443,110 @@ theorem C16_too_many_deleted_witness (hflag : deletedCountsAsFailure = true) (k 
     The property quantifies over complete / incomplete / new / deleted, so this is outside it; recorded as a witness. -/
 theorem C16_nostate_dropped_witness :
     writeWorking ⟨[⟨⟨1, [⟨"T0", []⟩], ""⟩, .noState⟩], 1⟩ = [] := by decide
+
+/-! ### header instances: their file ids, and what a save writes
+
+`StepModel/HeaderIds.lean` follows `ReadHeader` / `HeaderId` / `InstMgr::Append` / `HeaderVerifyInstances` /
+`HeaderMergeInstances` / `WriteHeader`; `_headerId` is state of the STEPfile object (constructor 0, `ReadExchangeFile` 5,
+nothing else assigns it — regenerated `headerIdSites`), so the ids depend on what the object has read before. -/
+section header
+open StepModel.HeaderIds
+
+/-- a STEPfile object after any sequence of ReadExchangeFile / AppendExchangeFile / ReadWorkingFile / AppendWorkingFile calls,
+    each on a file with the given header section -/
+def afterReads (st : HState) (hist : List (Fn × List HEnt)) : HState :=
+  hist.foldl (fun st x => readFileH x.1 st x.2) st
+
+theorem afterReads_wf (hist : List (Fn × List HEnt)) (st : HState) (h : Wf st.mgr) : Wf (afterReads st hist).mgr := by
+  induction hist generalizing st with
+  | nil => exact h
+  | cons x xs ih => exact ih _ (readFileH_wf x.1 h x.2)
+
+/-- header instances never collide: whatever a new STEPfile object reads, in whatever order, with whatever header sections
+    (any entities, any order, any number), no two of the header instances it holds carry the same file id -/
+theorem C16_header_ids_never_collide (hist : List (Fn × List HEnt)) : (afterReads {} hist).mgr.ids.Nodup :=
+  (afterReads_wf hist {} wf_empty).1
+
+/-- a header section in the order Part 21 prescribes (and every save writes): FILE_DESCRIPTION, FILE_NAME, FILE_SCHEMA, then
+    the optional entities -/
+def stdHeader (fd fn fs : String) (opt : List HEnt) : List HEnt :=
+  ⟨"FILE_DESCRIPTION", fd⟩ :: ⟨"FILE_NAME", fn⟩ :: ⟨"FILE_SCHEMA", fs⟩ :: opt
+
+theorem verify_shape {m : HMgr} {fd fn fs rest} (hs : Shape m fd fn fs rest) : verify m = m := by
+  have h1 : m.has 1 = true := by simp [HMgr.has, HMgr.ids, hs.nodes]
+  have h2 : m.has 2 = true := by simp [HMgr.has, HMgr.ids, hs.nodes]
+  have h3 : m.has 3 = true := by simp [HMgr.has, HMgr.ids, hs.nodes]
+  have ho : headerVerifyOrder = [2, 1, 3] := rfl
+  simp [verify, ho, h1, h2, h3]
+
+theorem writeHeader_shape {m : HMgr} {fd fn fs : String} {rest}
+    (hs : Shape m ⟨"FILE_DESCRIPTION", fd⟩ ⟨"FILE_NAME", fn⟩ ⟨"FILE_SCHEMA", fs⟩ rest) :
+    writeHeader m = stdHeader fd fn fs (rest.map (·.2)) := by
+  have hw : headerWriteFirst = ["FILE_DESCRIPTION", "FILE_NAME", "FILE_SCHEMA"] := rfl
+  have hk : headerWriteSkipIds = [2, 1, 3] := rfl
+  have hf : rest.filter (fun x => !([2, 1, 3] : List Nat).contains x.1) = rest := by
+    apply List.filter_eq_self.2
+    intro x hx
+    have := hs.big x hx
+    simp only [List.contains_cons, List.contains_nil, Bool.or_false, Bool.not_eq_true', Bool.or_eq_false_iff, beq_eq_false_iff_ne]
+    omega
+  unfold writeHeader stdHeader
+  rw [hw, hk, hs.nodes]
+  simp only [List.filter_cons]
+  rw [hf]
+  simp [HMgr.byName, hs.nodes, List.find?]
+
+theorem survives_aux (hid : Nat) (fd fn fs : String) (opt : List HEnt) (hopt : ∀ e ∈ opt, notFixed e.name) :
+    writeHeader (merge {} (verify (readSection hid {} (stdHeader fd fn fs opt)).1)) = stdHeader fd fn fs opt := by
+  let m3 : HMgr := ⟨[(1, ⟨"FILE_DESCRIPTION", fd⟩), (2, ⟨"FILE_NAME", fn⟩), (3, ⟨"FILE_SCHEMA", fs⟩)], 3⟩
+  have hs3 : Shape m3 ⟨"FILE_DESCRIPTION", fd⟩ ⟨"FILE_NAME", fn⟩ ⟨"FILE_SCHEMA", fs⟩ [] :=
+    ⟨rfl, (by intro x hx; cases hx), Nat.le_refl 3⟩
+  have hw3 : Wf m3 :=
+    ⟨by simp [m3, HMgr.ids], by intro id h; simp [m3, HMgr.ids] at h; rcases h with h | h | h <;> subst h <;> simp [m3]⟩
+  have hsec : readSection hid {} (stdHeader fd fn fs opt) = readSection hid m3 opt := by
+    have e1 : headerId hid "FILE_DESCRIPTION" = (1, hid) := rfl
+    have e2 : headerId hid "FILE_NAME" = (2, hid) := rfl
+    have e3 : headerId hid "FILE_SCHEMA" = (3, hid) := rfl
+    simp [stdHeader, readSection, e1, e2, e3, HMgr.append, HMgr.has, HMgr.ids, m3]
+  obtain ⟨rest', hsh, hmap⟩ := readSection_shape opt hid m3 _ _ _ [] hs3 hw3 hopt
+  have hm : ∀ new : HMgr, merge {} new = new := by intro new; unfold merge; rw [if_pos (by decide)]
+  rw [hsec, verify_shape hsh, hm, writeHeader_shape hsh, hmap]; rfl
+
+/-- all header instances survive: a file whose header section is in Part 21 order — the three required instances and ANY
+    number of optional ones, repeated kinds included — read with ReadExchangeFile or ReadWorkingFile into a STEPfile object in
+    ANY state (new: `_headerId` 0, nothing held; or used: any `_headerId`, any header instances from earlier reads) is written
+    back with exactly that header, every instance once, in order -/
+theorem C16_header_survives (f : Fn) (hf : f = .readExchange ∨ f = .readWorking) (st : HState) (fd fn fs : String)
+    (opt : List HEnt) (hopt : ∀ e ∈ opt, notFixed e.name) :
+    writeHeader (readFileH f st (stdHeader fd fn fs opt)).mgr = stdHeader fd fn fs opt := by
+  have hsite : (site f).2 = true := by rcases hf with h | h <;> subst h <;> rfl
+  unfold readFileH
+  simp only [hsite, if_true]
+  exact survives_aux _ fd fn fs opt hopt
+
+/-- … hence through save and re-open, in the same object or in another one, new or used: the header of the file the session
+    was loaded from is the header of every later save -/
+theorem C16_header_reopen (f g : Fn) (hf : f = .readExchange ∨ f = .readWorking) (hg : g = .readExchange ∨ g = .readWorking)
+    (st st' : HState) (fd fn fs : String) (opt : List HEnt) (hopt : ∀ e ∈ opt, notFixed e.name) :
+    writeHeader (readFileH g st' (writeHeader (readFileH f st (stdHeader fd fn fs opt)).mgr)).mgr = stdHeader fd fn fs opt := by
+  rw [C16_header_survives f hf st fd fn fs opt hopt, C16_header_survives g hg st' fd fn fs opt hopt]
+
+/-- the order matters: in a NEW object (`_headerId` 0) a working-session file whose header has an optional entity BEFORE the
+    three required ones — not the order Part 21 prescribes, and never written by the library — gives that entity id 1, pushes
+    FILE_DESCRIPTION / FILE_NAME / FILE_SCHEMA to 2 / 3 / 4, and the next save drops the optional entity and writes
+    FILE_SCHEMA twice (the implementation does exactly this: histories of this kind are compared in the correspondence runs) -/
+theorem C16_header_order_witness :
+    let ents := [⟨"SECTION_LANGUAGE", "l"⟩, ⟨"FILE_DESCRIPTION", "d"⟩, ⟨"FILE_NAME", "n"⟩, ⟨"FILE_SCHEMA", "s"⟩]
+    (readFileH .readWorking {} ents).mgr.nodes.map (fun x => (x.1, x.2.name))
+        = [(1, "SECTION_LANGUAGE"), (2, "FILE_DESCRIPTION"), (3, "FILE_NAME"), (4, "FILE_SCHEMA")] ∧
+    (writeHeader (readFileH .readWorking {} ents).mgr).map (·.name)
+        = ["FILE_DESCRIPTION", "FILE_NAME", "FILE_SCHEMA", "FILE_SCHEMA"] ∧
+    -- the same file read with ReadExchangeFile (`_headerId` := 5) is written back whole
+    (writeHeader (readFileH .readExchange {} ents).mgr).map (·.name)
+        = ["FILE_DESCRIPTION", "FILE_NAME", "FILE_SCHEMA", "SECTION_LANGUAGE"] := by
+  decide
+
+end header
 
 /-! ### hypotheses are satisfiable, with all four states and a missing value present -/
 
